@@ -33,6 +33,7 @@ mod e3;
 mod e4;
 mod hub;
 mod hubio;
+mod c13;
 
 use common::*;
 
@@ -92,6 +93,7 @@ fn main() {
         "C03" | "C10" => hub::run(&ctx, &id),
         "C11" => hubio::run_c11(&ctx),
         "C12" => hubio::run_c12(&ctx),
+        "C13" => c13::run(&ctx),
         _ => machinery_error(format!("unknown property id {id}")),
     }
 }
